@@ -1062,6 +1062,19 @@ var c09Handmade = []string{
 	"echo @(a|b) +(c) <(d) >(e)",
 	"a >b 2>&1 <c >>d <<<e",
 	">a b",
+	"! >f foo | bar",
+	"! 2>&1 foo bar | baz | qux",
+	"if ! <in grep -q x | tail; then a; fi",
+	"a=b >f c d | e",
+	">f a=b c <g d",
+	"! a=1 2>e b | >o c",
+	"while ! <in read x | cat; do ! >f a | b && >g c; done",
+	"( ! >f a | b ) && { ! <i c | d; }",
+	"x=$(! >f a | b) y=`! <i c | d`",
+	"f() { ! 2>e a | b; }; case x in y) ! >f a | b ;; esac",
+	">f",
+	"! >f",
+	"a=b >f",
 	"a # comment\n# another\nb",
 	"# only",
 	"a \\\n b",
@@ -1154,6 +1167,93 @@ func c09EscnlText(r *Rand) string {
 	}
 }
 
+// c09RedirStmt is a statement built from simple commands whose redirections stand BEFORE the command
+// word and between assignments and words, with negation, pipelines and and-or lists, placed in every
+// compound position: the statement / command / redirection extents (Stmt → Cmd, Redirs) must nest.
+func c09RedirStmt(r *Rand, bash bool) string {
+	w := func() string { return r.Pick([]string{"a", "foo", "bar", "grep", "x1", "-q", "cat", "tail"}) }
+	redir := func() string {
+		ops := []string{">f", ">>o", "<in", "2>&1", "2>e", ">|c", "<>rw", "<&-", "> sp", "< sp"}
+		if bash {
+			ops = append(ops, "&>all", "<<<w", "{fd}>n")
+		}
+		return r.Pick(ops)
+	}
+	simple := func() string {
+		var parts []string
+		for i, k := 0, r.Intn(3); i < k; i++ {
+			if r.Bool() {
+				parts = append(parts, redir())
+			} else {
+				parts = append(parts, r.Pick([]string{"a=b", "v=", "x=1"}))
+			}
+		}
+		if r.Chance(60) {
+			parts = append(parts, redir())
+		}
+		nw := 1 + r.Intn(3)
+		if len(parts) > 0 && r.Chance(10) {
+			nw = 0 // only redirections / assignments
+		}
+		for i := 0; i < nw; i++ {
+			parts = append(parts, w())
+			if r.Chance(25) {
+				parts = append(parts, redir())
+			}
+		}
+		return strings.Join(parts, " ")
+	}
+	pipeline := func() string {
+		s := ""
+		if r.Chance(50) {
+			s = "! "
+		}
+		s += simple()
+		for i, k := 0, r.Intn(3); i < k; i++ {
+			op := " | "
+			if bash && r.Chance(15) {
+				op = " |& "
+			}
+			s += op + simple()
+		}
+		return s
+	}
+	andor := func() string {
+		s := pipeline()
+		for r.Chance(30) {
+			s += r.Pick([]string{" && ", " || "}) + pipeline()
+		}
+		return s
+	}
+	p := andor
+	switch r.Intn(14) {
+	case 0, 1, 2:
+		return p()
+	case 3:
+		return "if " + p() + "; then " + p() + "; fi"
+	case 4:
+		return "if " + p() + "; then :; elif " + p() + "; then :; else " + p() + "; fi"
+	case 5:
+		return r.Pick([]string{"while ", "until "}) + p() + "; do " + p() + "; done"
+	case 6:
+		return "( " + p() + " )"
+	case 7:
+		return "{ " + p() + "; }"
+	case 8:
+		return "x=$(" + p() + ") echo \"$(" + p() + ")\""
+	case 9:
+		return "echo `" + p() + "`"
+	case 10:
+		return "f() { " + p() + "; }"
+	case 11:
+		return "case x in a) " + p() + " ;; b) " + p() + " ;; esac"
+	case 12:
+		return p() + " &"
+	default:
+		return "for i in 1; do " + p() + "; done; " + p()
+	}
+}
+
 func c09Sources(c *Ctx) (srcs []string, tags [][]string) {
 	add := func(s string, t ...string) {
 		srcs = append(srcs, s)
@@ -1184,6 +1284,14 @@ func c09Sources(c *Ctx) (srcs []string, tags [][]string) {
 			s, t := c09Hostile(c.R, base, os.Getenv("C09_INSIDE") != "" || c.R.Chance(15))
 			add(s, append([]string{kind}, t...)...)
 		}
+		if c.R.Chance(30) {
+			// redirections before the command word, negation, pipelines, in every compound position
+			st := c09RedirStmt(c.R, c.R.Chance(60))
+			if c.R.Chance(30) {
+				st, _ = c09Hostile(c.R, st, false)
+			}
+			add(st, "src=redir-stmt")
+		}
 		if c.R.Chance(25) {
 			// quoted text, comments, here-documents with an escaped newline and tokens after them
 			last := srcs[len(srcs)-1]
@@ -1206,7 +1314,7 @@ func c09Sources(c *Ctx) (srcs []string, tags [][]string) {
 
 func c09(c *Ctx) {
 	c.Rule = "sources: hand-made programs covering every node type, the repository's own test inputs, grammar-generated programs; 70% made position-hostile " +
-		"(CRLF, NUL bytes, backslash-newline between tokens, tabs, multi-byte runes inside words); a quarter followed by quoted text / comments / here-documents holding a backslash-newline with further tokens on the same line; each parsed in all five variants with comments kept; " +
+		"(CRLF, NUL bytes, backslash-newline between tokens, tabs, multi-byte runes inside words); 30% followed by a statement with redirections before the command word / negation / pipelines in a compound position; a quarter followed by quoted text / comments / here-documents holding a backslash-newline with further tokens on the same line; each parsed in all five variants with comments kept; " +
 		"non-trivial = parsed tree has ≥ 6 nodes; distinct by (variant, source); plus boundary/random Pos arithmetic cases"
 	c09PosTie(c)
 	types := allNodeStructs()
